@@ -27,6 +27,8 @@ type world struct {
 	full   bool
 	n      int
 	h      int
+	nreti  int
+	nretn  int
 }
 
 const hmod = 1000000007
@@ -81,11 +83,11 @@ func (d *ioDev) Out(addr uint8, v uint8) { d.w.ev(3, int(addr), int(v)); d.touch
 
 type retiH struct{ w *world }
 
-func (h retiH) RETIHandle() { h.w.ev(4, 0, 0) }
+func (h retiH) RETIHandle() { h.w.nreti++; h.w.ev(4, 0, 0) }
 
 type retnH struct{ w *world }
 
-func (h retnH) RETNHandle() { h.w.ev(5, 0, 0) }
+func (h retnH) RETNHandle() { h.w.nretn++; h.w.ev(5, 0, 0) }
 
 type logW struct{ w **world }
 
@@ -414,8 +416,18 @@ func runTwin(t *toks, out *bufio.Writer) {
 		}
 		c2, w2 := snapshot(cpu, w)
 		n0 := len(w.trace)
+		// the request descriptor belongs to the caller (it may be shared by several CPUs): Step must not write into it
+		var reqData, reqBefore []uint8
+		if cpu.Interrupt != nil {
+			reqData = cpu.Interrupt.Data
+			reqBefore = append([]uint8(nil), reqData...)
+		}
 		cpu.Step()
 		c2.Step()
+		if string(reqData) != string(reqBefore) {
+			res = fmt.Sprintf("diverged_at_step_%d:the_callers_Interrupt.Data_was_modified_%x_to_%x", k, reqBefore, reqData)
+			break
+		}
 		if d := sameCPU(cpu, c2, w, w2); d != "" {
 			res = fmt.Sprintf("diverged_at_step_%d:%s", k, strings.ReplaceAll(d, " ", "_"))
 			break
@@ -541,6 +553,18 @@ func runInject(t *toks, out *bufio.Writer) {
 		if d := same(c, w); d != "" {
 			fmt.Fprintf(out, "%s fail k=%d %s\n", pc.id, k, strings.ReplaceAll(d, " ", "_"))
 			return
+		}
+		// the request must have been SERVED exactly once: one more return-from-interrupt than the undisturbed run
+		// (a maskable request only when the program ends with interrupts enabled; a non-maskable one always)
+		if pc.cpu.RETIHandler != nil && pc.cpu.RETNHandler != nil {
+			if kind == 0 && w.nretn != bw.nretn+1 {
+				fmt.Fprintf(out, "%s fail k=%d non-maskable_request_served_%d_times\n", pc.id, k, w.nretn-bw.nretn)
+				return
+			}
+			if kind != 0 && base.IFF1 && base.IM != 0 && w.nreti != bw.nreti+1 {
+				fmt.Fprintf(out, "%s fail k=%d maskable_request_served_%d_times\n", pc.id, k, w.nreti-bw.nreti)
+				return
+			}
 		}
 	}
 	fmt.Fprintf(out, "%s ok %d\n", pc.id, n+1)
